@@ -27,7 +27,11 @@ RULE = (
     "further transfers added at their own times) + 1..2 user calls abort | pause | remove on distinct transfers at a "
     "generated millisecond plus 0..6 loop iterations (aimed by the generator at every point of the negotiation: just "
     "queued, connect pending, connect completing, remotely queued, transfer request / reply pending, file connection "
-    "pending, mid-file, INCOMPLETE and re-queued, second offer of the peer) + 200 s of virtual time afterwards. "
+    "pending, mid-file, INCOMPLETE and re-queued, second offer of the peer); server messages can be preceded by 0..12 "
+    "back-to-back filler messages so that they are handled a chosen number of loop iterations into their arrival "
+    "instant, and a dedicated profile has the peer's OFFLINE status handled 0..9 iterations / 0..5 ms after the call "
+    "on its INITIALIZING upload or download started (connect in progress, reply pending, file removal with slow "
+    "file-system calls), optionally ONLINE again later + 200 s of virtual time afterwards. "
     "Oracle, per stopped transfer, after the call returned at T: (1) no PeerTransferQueue / PeerTransferRequest / "
     "PeerPlaceInQueueRequest / PeerUploadFailed naming the file, no PeerTransferReply(allowed) and no file-connection "
     "ticket of that transfer arrives at a scripted endpoint later than T + link latency (refusals answering a request "
@@ -225,11 +229,73 @@ def case_strategy(draw, focus=None):
             at = draw(st.integers(0, first_op + 8000))
         user = draw(st.integers(0, npeers))          # npeers = the unrelated user
         status = draw(st.sampled_from([2, 2, 1, 1, 0]))
-        trig.append({'at': at, 'kind': kind, 'user': user, 'status': status})
+        # filler messages in front: the trigger is handled `pad` loop iterations into its arrival instant
+        pad = draw(st.integers(0, 10)) if where == 0 else 0
+        trig.append({'at': at, 'kind': kind, 'user': user, 'status': status, 'pad': pad})
     limits = [1, 2, 4] if mid else ([0] if reoffer else [0, 0, 1, 4])
     return {'mode': mode, 'up_kbps': draw(st.sampled_from(limits)), 'down_kbps': draw(st.sampled_from(limits)),
             'exec_ms': draw(st.sampled_from([1, 3, 5] if reoffer else [0, 0, 1, 3])), 'peers': peers,
             'triggers': trig, 'ops': ops}
+
+
+@st.composite
+def offline_case(draw):
+    """The peer's OFFLINE status is handled while abort / pause / remove of its INITIALIZING transfer is in
+    progress: 0..9 loop iterations or 0..5 ms after the call started (slow cancellation: connect in progress,
+    connection closing, file removal with slow file-system calls), optionally ONLINE again later."""
+    role = draw(st.sampled_from(['U', 'D']))
+    p = draw(_peer(role, slow_bias=True))
+    p['xfers'] = [{'at': draw(st.sampled_from([0, 0, 40, 300])), 'size': draw(st.integers(3001, 20000))}]
+    p['indirect'] = draw(st.sampled_from(['silent', 'silent', 'cannot', 'pierce']))
+    s = p['xfers'][0]['at']
+    if role == 'D':
+        if draw(st.booleans()):
+            # the client has to connect: slow or hanging connect
+            p.update({'drop_link': True, 'direct': draw(st.sampled_from(['accept', 'accept', 'hang'])),
+                      'direct_ms': draw(st.sampled_from([3000, 6000, 9000])), 'indirect_ms': 59000,
+                      'silent': False, 'allow': True, 'reply_ms': draw(st.sampled_from([2, 3000])),
+                      'offset_ms': draw(st.sampled_from([2, 3000]))})
+            lo, hi = s + 70, s + min(p['direct_ms'], 9000) - 50
+        else:
+            # the request is delivered over the peer's own link, the reply is slow or never comes
+            p.update({'drop_link': False, 'silent': draw(st.booleans()), 'allow': True,
+                      'reply_ms': draw(st.sampled_from([6000, 9000, 29000]))})
+            lo, hi = s + 70, s + 5500
+    else:
+        second = draw(st.booleans())     # second attempt: the partial file exists, abort / remove have to delete it
+        p.update({'direct': 'accept', 'direct_ms': draw(st.sampled_from([2, 30])), 'auto_start': True,
+                  'start_ms': draw(st.sampled_from([5, 50])), 'fileconn_ms': draw(st.sampled_from([3000, 9000, 70000])),
+                  'fault': 'reset' if second else None, 'fault_k': draw(st.integers(1, 3000)), 'fault_n': 1,
+                  'drop_link': False})
+        first = s + 60 + p['direct_ms'] + p['start_ms']
+        if second:
+            lo = first + p['fileconn_ms'] + 70 + p['start_ms']
+            hi = lo + 2500
+            if p['fileconn_ms'] > 9000:
+                p['fileconn_ms'] = 3000
+                lo = first + 3000 + 70 + p['start_ms']
+                hi = lo + 2500
+        else:
+            lo, hi = first + 10, first + min(p['fileconn_ms'], 9000) - 50
+    peers = [p]
+    if draw(st.integers(0, 3)) == 0:
+        peers.append(draw(_peer(draw(st.sampled_from(['U', 'D'])), slow_bias=draw(st.booleans()))))
+    at = draw(st.integers(lo, max(lo, hi)))
+    steps = draw(st.sampled_from([0, 0, 1, 2]))
+    ops = [{'peer': 0, 'xfer': 0, 'op': draw(st.sampled_from(OPS)), 'at': at, 'steps': steps}]
+    if draw(st.integers(0, 2)) > 0:
+        j, pad = 0, steps + draw(st.integers(0, 9))
+    else:
+        j, pad = draw(st.integers(1, 5)), draw(st.integers(0, 3))
+    trig = [{'at': at - 1 + j, 'kind': 'status', 'user': 0, 'status': 0, 'pad': pad}]
+    if draw(st.integers(0, 2)) > 0:
+        trig.append({'at': at + draw(st.sampled_from([300, 1000, 4000])), 'kind': 'status', 'user': 0,
+                     'status': draw(st.sampled_from([2, 2, 1])), 'pad': 0})
+    for _ in range(draw(st.integers(0, 2))):
+        trig.append({'at': draw(st.integers(0, at + 3000)), 'kind': draw(st.sampled_from(['status', 'adduser', 'add'])),
+                     'user': draw(st.integers(0, len(peers))), 'status': draw(st.sampled_from([2, 1])), 'pad': 0})
+    return {'mode': draw(st.sampled_from(['fallback', 'race'])), 'up_kbps': 0, 'down_kbps': 0,
+            'exec_ms': draw(st.sampled_from([0, 1, 3, 5])), 'peers': peers, 'triggers': trig, 'ops': ops}
 
 
 # ---------------------------------------------------------------------------
@@ -304,7 +370,7 @@ def _sanitise(case):
         trig.append({'at': _int(t.get('at'), 0, 90000, 0),
                      'kind': t.get('kind') if t.get('kind') in ('status', 'adduser', 'add') else 'status',
                      'user': _int(t.get('user'), 0, 10 ** 6, 0) % (len(peers) + 1),
-                     'status': _int(t.get('status'), 0, 2, 2)})
+                     'status': _int(t.get('status'), 0, 2, 2), 'pad': _int(t.get('pad'), 0, 12, 0)})
     return {'mode': 'race' if case.get('mode') == 'race' else 'fallback',
             'up_kbps': _int(case.get('up_kbps'), 0, 64, 0), 'down_kbps': _int(case.get('down_kbps'), 0, 64, 0),
             'exec_ms': _int(case.get('exec_ms'), 0, 20, 0),
@@ -430,6 +496,7 @@ def _run(c, res, tmp):
         s = simworld.mk_settings('me')
         s.network.peer.connect_mode = PeerConnectMode.RACE if c['mode'] == 'race' else PeerConnectMode.FALLBACK
         s.shares.download = dl
+        s.transfers.report_interval = 10.0     # progress events are irrelevant here; fewer wake-ups in the 200 s horizon
         if has_d:
             xfer.share_dir_settings(s, share)
         muted = set()                 # (user, remote path): the peer says nothing more about that file
@@ -635,6 +702,10 @@ def _run(c, res, tmp):
             elif ev[0] == 'trigger':
                 tr = ev[1]
                 user = names[tr['user']] if tr['user'] < len(names) else OTHER
+                # filler messages sent back-to-back before the trigger: the link delivers one queued segment per
+                # loop iteration, so the trigger is handled `pad` iterations later within its arrival instant
+                for _ in range(tr['pad'] if tr['kind'] != 'add' else 0):
+                    world.server.send(M.GetUserStats.Response(OTHER, UserStats(1000, 5, 10, 2)))
                 if tr['kind'] == 'status':
                     if tr['status'] == 0:
                         offline_times.setdefault(user, []).append(loop.time())
@@ -907,6 +978,7 @@ def run_shard(ctx):
     ctx.explore(case_strategy(focus='D'), n // 3, salt=2)
     ctx.explore(case_strategy(focus='mid'), n // 3, salt=3)
     ctx.explore(case_strategy(focus='reoffer'), n // 2, salt=4)
+    ctx.explore(offline_case(), n // 3, salt=5)
 
 
 MANIFEST_ENTRY = {
